@@ -175,6 +175,10 @@ func (z *reader) Reset(r io.Reader, dict []byte) error {
 			z.decompressor = flate.NewReader(z.r)
 		}
 	} else {
+		if !haveDict {
+			// as NewReaderDict: the dictionary is used only if the stream asks for one
+			dict = nil
+		}
 		z.decompressor.(flate.Resetter).Reset(z.r, dict)
 	}
 	z.digest = adler32.New()
